@@ -80,6 +80,14 @@ def main():
             gs = stateform(t, emb, is_set, leafidxer(t))
             if gs != tr['gs']:
                 mism.append(dict(where, kind='getstate-form', model=tr['gs'], real=gs))
+            if tr['gs']['f'] == 'emb' and 'gso' in tr:
+                # the same tree with its only leaf a stored object: the state must refer to it
+                t2 = build(cls, ti)
+                t2._firstbucket._p_oid = b'\0' * 7 + b'\1'
+                gso = stateform(t2, emb, is_set, leafidxer(t2))
+                if gso != tr['gso']:
+                    mism.append(dict(where, kind='getstate-form-stored-leaf', model=tr['gso'], real=gso))
+                del t2
             deep_broken = tr['rt'] != tr['to']      # the model predicts the inline-leaf damage (finding D25)
             # round trips
             trips = [('setstate', lambda: _setstate(cls, t)), ('deepcopy', lambda: copy.deepcopy(t)),
